@@ -337,6 +337,13 @@ func c05NoLockAcrossWait(c *Check, P string, r *GCRoles) {
 			"the wait for subscribers' acks must not happen while the subscribers lock is held (a subscriber that publishes to another topic while a Subscribe is pending deadlocks on RWMutex writer preference)", "held: "+held.String())
 	}
 	c.RoleKeys = false
+	c05NoOtherLockAcrossWait(c, P+".O4", r)
+}
+
+// c05NoOtherLockAcrossWait: the part of the wait discipline that holds today
+// (the known finding F9 concerns the subscribers lock only); shared through gcSafety.
+func c05NoOtherLockAcrossWait(c *Check, id string, r *GCRoles) {
+	W := r.Wait
 	// besides the topic mutex (one batch at a time per topic, by design) nothing else is held across the wait: a lock
 	// every Publish needs (persisted-messages lock, closed lock) would make a subscriber that publishes before it acks deadlock
 	for i, si := range r.waitSelects() {
@@ -355,12 +362,12 @@ func c05NoLockAcrossWait(c *Check, P string, r *GCRoles) {
 			}
 		}
 		sort.Strings(extra)
-		c.Report(len(extra) == 0, P+".O4", "NO-OTHER-LOCK-ACROSS-WAIT", W, si.Sel.Pos(), fmt.Sprintf("blocking-publish wait: select#%d", i),
+		c.Report(len(extra) == 0, id, "NO-OTHER-LOCK-ACROSS-WAIT", W, si.Sel.Pos(), fmt.Sprintf("blocking-publish wait: select#%d", i),
 			"while waiting for the subscribers' acks Publish holds no lock that other Publish calls need (only its topic's mutex)", "held: "+held.String()+"; not allowed: "+strings.Join(extra, ","))
 	}
 	// the wait's other exit is the Pub/Sub's closing signal: Close must be able to raise it while a Publish waits
 	sig := CloseSites(r.Close, func(v ssa.Value) bool { return AllOrigins(v, IsFieldLoad(r.Closing)) })
-	c.Floor(P+".O4", "close(closing signal) in GoChannel.Close", len(sig), 1)
+	c.Floor(id, "close(closing signal) in GoChannel.Close", len(sig), 1)
 	for i, si := range r.waitSelects() {
 		held := r.LA.Held(si.Sel)
 		for _, s := range sig {
@@ -372,7 +379,7 @@ func c05NoLockAcrossWait(c *Check, P string, r *GCRoles) {
 				}
 			}
 			sort.Strings(clash)
-			c.Report(len(clash) == 0, P+".O4", "CLOSE-CAN-RELEASE-WAIT", W, si.Sel.Pos(), fmt.Sprintf("blocking-publish wait: select#%d vs close(closing signal)", i),
+			c.Report(len(clash) == 0, id, "CLOSE-CAN-RELEASE-WAIT", W, si.Sel.Pos(), fmt.Sprintf("blocking-publish wait: select#%d vs close(closing signal)", i),
 				"no lock that Close holds when it raises the closing signal is held by the waiting Publish (otherwise Close cannot release a blocked Publish: 'or the Pub/Sub was closed')",
 				"held at the wait: "+held.String()+"; held at close(closing): "+need.String()+"; clash: "+strings.Join(clash, ","))
 		}
